@@ -24,7 +24,10 @@ def atom_to_str(v):
     """order-preserving injective map from integer atoms to text (names are only ever
     compared, sorted, hashed and copied by the code under test)"""
     v = int(v)
-    return ("p%07d" % v) if v >= 0 else ("m%07d" % (10 ** 7 + v))
+    base = ("p%07d" % v) if v >= 0 else ("m%07d" % (10 ** 7 + v))
+    # distinct atoms have distinct fixed-width prefixes, so the order is decided before the suffix:
+    # replays therefore also exercise non-ASCII names and names of unequal length
+    return base + ("", "\u00e9", "\u00df\u00df")[v % 3]
 
 
 class ConcreteViolation(Exception):
@@ -57,12 +60,25 @@ class SymCtx(Ctx):
         self.np = L.np
         symlibs.h5_reset()
         symnp.CONCRETE_MATH = False
+        symnp.F32_EXACT = False
+
+    def f32_visible(self, on=True):
+        """make casts to float32 observable (value -> F32(value)) for bit-exactness properties"""
+        symnp.F32_EXACT = on
 
     def mod(self, name):
         return self.L.load(name)
 
     def real(self, name, positive=False, nonneg=False):
         return self.eng.sym_real(name, positive=positive, nonneg=nonneg)
+
+    def real_bits(self, name):
+        """a float64 whose bit pattern matters (persistence properties)"""
+        return self.eng.sym_real(name)
+
+    def same(self, a, b):
+        """exact equality (bit pattern for floats)"""
+        return a == b
 
     def int(self, name, lo=None, hi=None):
         return self.eng.sym_int(name, lo, hi)
@@ -135,6 +151,22 @@ class ConcreteCtx(Ctx):
             v = 1.0 if positive else 0.0
         return float(v)
 
+    def real_bits(self, name):
+        """replay value for a bit-exactness property: a double that does not survive a float32 round trip"""
+        import struct
+        x = self.real(name)
+        if struct.unpack("f", struct.pack("f", x))[0] == x:
+            x = math.nextafter(x, math.inf)
+        return x
+
+    def same(self, a, b):
+        try:
+            if isinstance(a, float) and isinstance(b, float) and math.isnan(a) and math.isnan(b):
+                return True
+            return bool(a == b)
+        except Exception:
+            return False
+
     def int(self, name, lo=None, hi=None):
         v = self.values.get(name)
         if v is None:
@@ -179,6 +211,9 @@ class ConcreteCtx(Ctx):
 
     def is_true(self, c):
         return bool(c)
+
+    def f32_visible(self, on=True):
+        symnp.F32_EXACT = on if self.mode == "shim" else False
 
     def And(self, *cs):
         return all(bool(c) for c in cs)
